@@ -50,10 +50,10 @@ func letValue(rt *rapid.T, g *gen.G, t gen.Type, scope []bindSpec) (gen.Expr, st
 			refs = append(refs, b)
 		}
 	}
-	k := rapid.IntRange(0, 5).Draw(rt, "letshape")
-	if k >= 4 && len(refs) > 0 {
+	k := rapid.IntRange(0, 6).Draw(rt, "letshape")
+	if k >= 5 && len(refs) > 0 {
 		b := refs[rapid.IntRange(0, len(refs)-1).Draw(rt, "letref")]
-		if t == gen.TInt && k == 5 {
+		if t == gen.TInt && k == 6 {
 			return &gen.Binary{Op: rapid.SampledFrom([]string{"+", "-", "*"}).Draw(rt, "letop"), X: gen.ID(b.name), Y: &gen.Num{Text: "1"}}, "compound-over-reference"
 		}
 		return gen.ID(b.name), "reference"
@@ -68,8 +68,19 @@ func letValue(rt *rapid.T, g *gen.G, t gen.Type, scope []bindSpec) (gen.Expr, st
 			return &gen.Unary{Op: "-", X: n}, "signed"
 		case 2:
 			return &gen.Binary{Op: rapid.SampledFrom([]string{"+", "-", "*"}).Draw(rt, "letop"), X: n, Y: &gen.Num{Text: "2"}}, "compound"
-		default:
+		case 3:
 			return &gen.Paren{X: &gen.Unary{Op: "-", X: n}}, "signed-parenthesised"
+		default:
+			// an explicitly parenthesised compound value, and built-ins whose
+			// SQL is an infix / CASE expression
+			switch rapid.IntRange(0, 2).Draw(rt, "letwrapped") {
+			case 0:
+				return &gen.Paren{X: &gen.Binary{Op: rapid.SampledFrom([]string{"+", "-", "*"}).Draw(rt, "letop"), X: n, Y: &gen.Num{Text: "2"}}}, "compound-parenthesised"
+			case 1:
+				return &gen.Paren{X: &gen.Paren{X: &gen.Binary{Op: "-", X: n, Y: &gen.Num{Text: "3"}}}}, "compound-parenthesised"
+			default:
+				return &gen.Call{Func: "iff", Args: []gen.Expr{&gen.Binary{Op: "<", X: n, Y: &gen.Num{Text: "2"}}, n, &gen.Num{Text: "7"}}}, "built-in-call"
+			}
 		}
 	case gen.TStr:
 		return g.SpellStr(rapid.SampledFrom([]string{"x", "X", "y", ""}).Draw(rt, "letstr")), "literal"
@@ -368,7 +379,7 @@ func TestC06Bindings(t *testing.T) {
 			return
 		}
 		interesting := classes["let-shadows-parameter"] || classes["let-redefined"] || classes["let-value:reference"] || classes["let-value:compound-over-reference"] ||
-			classes["let-value:signed"] || classes["let-value:compound"] || classes["use-in-join-or-row-count"] || classes["alias-spelled-like-a-binding"] || classes["as-name-spelled-like-a-binding"]
+			classes["let-value:signed"] || classes["let-value:compound"] || classes["let-value:compound-parenthesised"] || classes["let-value:built-in-call"] || classes["use-in-join-or-row-count"] || classes["alias-spelled-like-a-binding"] || classes["as-name-spelled-like-a-binding"]
 		if nuses > 0 && interesting {
 			st.NonTrivial(gen.Shape(prog))
 			st.SampleHashed("program", c.Src, func() any { return map[string]any{"pql": c.Src, "params": c.Params, "sql": info.SQL} })
